@@ -324,8 +324,9 @@ Print Assumptions C15_seq_agree_implies_spec_ok.
     Where the boundaries between adjacent pieces of character data fall (text,
     CDATA section, entity reference) is not part of the element tree.  Every
     specification verdict compares streams in the normal form [norm_stream]
-    (declaration attributes dropped, each maximal run of character data one
-    token, empty runs none), trees in the corresponding normal form [norm]. *)
+    (declaration attributes, processing instructions and directives dropped,
+    each maximal run of character data one token, empty runs none), trees in
+    the corresponding normal form [norm]. *)
 
 (** The normal form is one: normalising again changes nothing. *)
 Theorem C15_norm_stream_idem : forall l, norm_stream (norm_stream l) = norm_stream l.
@@ -337,6 +338,16 @@ Theorem C15_norm_stream_segmentation : forall l1 s1 s2 l2,
   norm_stream (l1 ++ TText (s1 ++ s2) :: l2) = norm_stream (l1 ++ TText s1 :: TText s2 :: l2).
 Proof. exact norm_stream_segmentation. Qed.
 Print Assumptions C15_norm_stream_segmentation.
+
+(** Processing instructions and directives are not part of the element tree
+    the property enumerates (element and attribute names, attribute values,
+    character data, comments, child order): the normal form does not see them,
+    wherever they stand. *)
+Theorem C15_norm_stream_ignores_pi_and_directive : forall l1 x l2,
+  (match x with TProcInst _ _ | TDirective _ => True | _ => False end) ->
+  norm_stream (l1 ++ x :: l2) = norm_stream (l1 ++ l2).
+Proof. exact norm_stream_drop. Qed.
+Print Assumptions C15_norm_stream_ignores_pi_and_directive.
 
 (** "Same element tree" ([same_tree], [same_stream], used by every clause of
     [doc_spec_ok]) is equality of the token streams in that normal form. *)
